@@ -104,7 +104,7 @@ func judgeStdOutput(src []byte, paths []string, declared func(path string) []str
 // c18Variants: the ways in which the one-reference files are produced. 0: fresh File rendered once; 1: the second
 // render of the same File; 2: the File also carries a cgo preamble (directives only, nothing refers to C); 3: the
 // references are first rendered as fragments with the File (RenderWithFile), then the File is rendered.
-var c18Variants = []string{"fresh", "second-render", "with-cgo-preamble", "after-RenderWithFile", "file-named-like-the-package"}
+var c18Variants = []string{"fresh", "second-render", "with-cgo-preamble", "after-RenderWithFile", "file-named-like-the-package", "alias-after-name-hint", "alias-given-twice"}
 
 func (sc stdRefCase) render() ([]byte, string) { return sc.renderVariant(0) }
 
@@ -123,6 +123,19 @@ func (sc stdRefCase) renderVariant(variant int) ([]byte, string) {
 	}
 	for _, p := range sc.Paths { // in path order, not map order
 		if a, ok := sc.Aliases[p]; ok {
+			switch variant {
+			case 5:
+				// a table of names first, one entry overridden by an alias afterwards
+				if names := stdDeclared(p); len(names) > 0 {
+					if len(sc.Paths)%2 == 0 {
+						f.ImportName(p, names[0])
+					} else {
+						f.ImportNames(map[string]string{p: names[0], "fmt": "fmt"})
+					}
+				}
+			case 6:
+				f.ImportAlias(p, a)
+			}
 			f.ImportAlias(p, a)
 		}
 	}
@@ -156,6 +169,9 @@ func stdDeclared(path string) []string {
 
 func c18Case(r *mon.Run, sc stdRefCase, c mon.Case) {
 	for v := 1; v < len(c18Variants); v++ {
+		if v >= 5 && len(sc.Aliases) == 0 {
+			continue // these two variants only differ from the plain one when an alias hint is given
+		}
 		src, fail := sc.renderVariant(v)
 		if fail != "" {
 			r.Violate("std-render-failure", c, "%v (%s): %s", sc.Paths, c18Variants[v], fail)
@@ -345,7 +361,7 @@ func runC18(r *mon.Run) {
 		r.Inconclusive(fmt.Sprintf("only %d package directories found under %s", len(std), oracle.GorootSrc()))
 		return
 	}
-	r.SetRule(fmt.Sprintf("every importable package directory of %s (%d; cmd, testdata, vendor, _/. excluded), alone with and without PackagePrefix, each case produced five ways (fresh File; second render of the same File; File with a cgo preamble nothing refers to; after the references were rendered with RenderWithFile; File whose package is named like the package referred to); every ordered pair (and group) of packages declaring the same name or sharing the last path element (modulo /vN); all packages in one file in two orders; then the same single-reference and pair cases with ImportNames(table produced by running /repo/gennames), and every entry of that table against the package clauses. Enumerated completely in both tiers. non-trivial = every case; distinct by (label, paths, prefix)", oracle.GorootSrc(), len(std)))
+	r.SetRule(fmt.Sprintf("every importable package directory of %s (%d; cmd, testdata, vendor, _/. excluded), alone with and without PackagePrefix, each case produced up to seven ways (fresh File; second render of the same File; File with a cgo preamble nothing refers to; after the references were rendered with RenderWithFile; File whose package is named like the package referred to; for cases with an alias hint also: alias given after a name hint for the same path, alias given twice); every ordered pair (and group) of packages declaring the same name or sharing the last path element (modulo /vN); all packages in one file in two orders; then the same single-reference and pair cases with ImportNames(table produced by running /repo/gennames), and every entry of that table against the package clauses. Enumerated completely in both tiers. non-trivial = every case; distinct by (label, paths, prefix)", oracle.GorootSrc(), len(std)))
 	r.SetExhaustive(true)
 	r.Put("std_package_dirs", len(std))
 	c18NegControls(r)
